@@ -260,3 +260,78 @@ func c10KindsSweep(r *Run) {
 		}
 	}
 }
+
+// ---------- C13: patterns that do not compile, reached more than once ----------
+
+func c13BadPatternsTwice(r *Run) {
+	d := S1{B: "x", L: []string{"a", "b"}, M: map[string]int{"k": 1}}
+	absent := map[string]interface{}{"M": map[string]interface{}{}}
+	for _, e := range []string{`B matches "web-("`, "B not matches `[`", `any L as x { x matches "(" }`, `A == 1 and B matches "a{2,1}"`, `M.zz matches "(" or B matches "("`, "not B matches `*`"} {
+		ev, err := bexpr.CreateEvaluator(e)
+		if err != nil {
+			continue
+		}
+		for k, datum := range []interface{}{absent, d, d, absent, d, d} {
+			o := evalObs(ev, datum)
+			fresh := "NOCREATE"
+			if ev2, err2 := bexpr.CreateEvaluator(e); err2 == nil {
+				fresh = evalObs(ev2, datum)
+			}
+			r.Evaluations += 2
+			r.Seen(fmt.Sprintf("bad-pattern-twice|%s|%d|%s", e, k, o))
+			if o != fresh {
+				r.Violate("history-dependent", "bad-pattern|"+e, map[string]interface{}{"expression": e, "datum": describe(datum), "call": k + 1}, "call "+fmt.Sprint(k+1)+" on a used evaluator: "+o+", on a fresh one: "+fresh)
+			}
+		}
+	}
+}
+
+// ---------- C18: the unknown value is what an unresolved selector evaluates to, whatever it is and wherever the selector ends ----------
+
+func c18UnknownSubstitution(r *Run) {
+	type pair struct {
+		missing func() interface{}
+		with    func(u interface{}) interface{}
+		sel     string
+	}
+	pairs := []pair{
+		{func() interface{} { return map[string]interface{}{"meta": map[string]interface{}{"k": 1}} }, func(u interface{}) interface{} { return map[string]interface{}{"meta": map[string]interface{}{"k": 1, "version": u}} }, "meta.version"},
+		{func() interface{} { return map[string]interface{}{"a": 1} }, func(u interface{}) interface{} { return map[string]interface{}{"a": 1, "zz": u} }, "zz"},
+		{func() interface{} { return S7{Labels: map[string]string{"a": "b"}} }, nil, "lab.zz"},
+		{func() interface{} {
+			return map[string]interface{}{"a": map[string]interface{}{"b": map[string]interface{}{}}}
+		}, func(u interface{}) interface{} {
+			return map[string]interface{}{"a": map[string]interface{}{"b": map[string]interface{}{"c": u}}}
+		}, `"/a/b/c"`},
+	}
+	us := []interface{}{"none", "", 1, nil, []interface{}{"on", 1}, true, 1.5, map[string]interface{}{"on": 1}}
+	forms := []string{"%s == none", `%s != "none"`, "on in %s", "on not in %s", "%s is empty", "%s is not empty", "%s matches `^n`", "%s == 1", "any %s as x { x == on }", "all %s as x { x != on }", "not %s == none", "%s == none or %s == 1"}
+	for pi, p := range pairs {
+		for ui, u := range us {
+			for _, f := range forms {
+				e := strings.ReplaceAll(f, "%s", p.sel)
+				if strings.Contains(f, " as x ") {
+					// a quantifier binds its variable to a PATH below the selector: over a substituted list that path does not exist in the
+					// datum (recorded interpretation, DESIGN section 8), so only scalar unknown values are compared for quantified forms
+					switch u.(type) {
+					case []interface{}, map[string]interface{}:
+						continue
+					}
+				}
+				got := exprObs(e, p.missing(), bexpr.WithUnknownValue(u))
+				r.Evaluations++
+				r.Seen(fmt.Sprintf("unknown-substitution|%d|%d|%s|%s", pi, ui, f, got))
+				c := map[string]interface{}{"expression": e, "datum": describe(p.missing()), "unknown_value": describe(u)}
+				if p.with != nil {
+					if want := exprObs(e, p.with(u)); classOf(got) != classOf(want) {
+						r.Violate("unknown-value-not-substituted", fmt.Sprintf("%d|%d|%s", pi, ui, f), c, "with the unknown value "+got+"; on the datum that holds that value there: "+want)
+					}
+				}
+				// repeated options: the last one is the unknown value, also when it is nil
+				if again := exprObs(e, p.missing(), bexpr.WithUnknownValue("earlier"), bexpr.WithUnknownValue(u)); again != got {
+					r.Violate("last-wins", fmt.Sprintf("unknown|%d|%d|%s", pi, ui, f), c, "WithUnknownValue(earlier), WithUnknownValue(u): "+again+"; WithUnknownValue(u) alone: "+got)
+				}
+			}
+		}
+	}
+}
